@@ -141,6 +141,10 @@ def _de_tree(rng, depth):
             return DE.boolean(rng.chance(1, 2))
         return DE.url('http://' + 'x' * rng.below(9))
     mk = DE.sequence if rng.chance(2, 3) else DE.alternative
+    if rng.chance(1, 8):
+        # breadth: many empty containers (the nesting limit must not count them)
+        n = rng.choice([31, 32, 33, 40])
+        return mk([(DE.sequence if rng.chance(1, 2) else DE.alternative)([]) for _ in range(n)] + [_de_tree(rng, 1)])
     return mk([_de_tree(rng, depth - 1) for _ in range(rng.choice([0, 1, 2, 3]))])
 
 
